@@ -817,7 +817,6 @@ func (r *Runner) exec(idx int, c Cmd) (Obs, obj) {
 	panic("harness: unknown op")
 }
 
-func ruleCount() int64 { return tensor.VerifRuleCount() }
 
 var _ = math.Inf
 
